@@ -27,15 +27,19 @@ theorem log_sig_eq_ls (x : Idx → ℝ) (n ax : Nat) (i : Idx) (hn : n ≠ 0) :
 /-- **log_softmax = log ∘ softmax**, as arrays, for EVERY real array, axis and rank: the shifted form
     `x − max − log Σ exp(x − max)` the kernel evaluates is the (mathematical) logarithm of every entry of the
     shifted quotient `exp(x − max) / Σ exp(x − max)`; and the two kernels reject exactly the same calls
-    (axis out of range, rank 0, empty axis). -/
+    (axis out of range — on a 0-d operand: every `dim` other than `0` / `−1` —, empty axis).  On a 0-d operand
+    with `dim` `0` / `−1` the two sides are `0` and `log 1`. -/
 theorem log_softmax_is_log_softmax (x : NDArray ℝ) (axis : Int) :
     logSoftmaxForward x axis = (softmaxForward x axis).map (fun s => s.map Real.log) := by
+  by_cases h0 : zeroDimAxis x.shape axis
+  · rw [sm_logSoftmaxForward_zero x axis h0, sm_softmaxForward_zero x axis h0, Option.map_some, map_ofFn]
+    exact congrArg (fun f => some (ofFn [] f)) (funext fun _ => Real.log_one.symm)
   cases hax : normAxis x.shape.length axis with
-  | none => simp [logSoftmaxForward, softmaxForward, hax]
+  | none => simp [logSoftmaxForward, softmaxForward, hax, h0]
   | some ax =>
     by_cases hn : x.shape.getD ax 0 = 0
     · have hn' : x.shape[ax]?.getD 0 = 0 := by simpa [List.getD_eq_getElem?_getD] using hn
-      simp [logSoftmaxForward, softmaxForward, hax, hn']
+      simp [logSoftmaxForward, softmaxForward, hax, hn', h0]
     · rw [sm_logSoftmaxForward_eq x axis ax hax hn, sm_softmaxForward_eq x axis ax hax hn, Option.map_some,
         map_ofFn]
       exact congrArg (fun f => some (ofFn x.shape f)) (funext fun i => (log_sig_eq_ls _ _ _ i hn).symm)
